@@ -665,7 +665,7 @@ def native_validate(pu, work, tier, seed):
 
 def replay_counterexample(pu, h, label, failure, work, tier, seed):
     """turn the structural part of a CBMC counterexample into runs of the real class"""
-    vals, first = _nat.trace_values(failure.get('trace', ''))
+    vals, first = _nat.trace_values(failure.get('trace', ''), failure)
     fn = h['fn']
     if fn not in OPS:
         return dict(failing_input_found=False, replay_note='no native replay for ' + fn)
